@@ -4,7 +4,9 @@ through the real DMAP.MOVEFRAGMENT handler in any order and repeatedly, reads wi
 through every entry path, white-box copies read after every step.
 
 Oracle (independent of the Lean model, on the implementation's replies only):
-  * a read returns a copy whose timestamp is the maximum over the live copies of the owner and the backup owners;
+  * a read returns a copy whose timestamp is the maximum over the live copies of the owner, of EVERY previous owner
+    still listed for the partition (listed behind the system's back: wb.owners; a previous owner in the middle of
+    the list may hold no copy) and - when those are fewer than the read quorum or read-repair is on - of the backup owners;
   * after a hand-over the receiver's copy of each delivered key carries max(previous, delivered) and is
     one of those records;
   * after a successful read with read-repair on, the owner and every backup owner hold the winner's
@@ -12,7 +14,7 @@ Oracle (independent of the Lean model, on the implementation's replies only):
 from streams.cluster import T0, hx
 
 HEADER = 3
-REQUIRED_SHAPES = ["stale_owner_newer_backup", "tie", "missing_copy", "expired_copy", "repair_fixed_owner", "repair_fixed_backup",
+REQUIRED_SHAPES = ["previous_owner_newest", "previous_owner_gap", "stale_owner_newer_backup", "tie", "missing_copy", "expired_copy", "repair_fixed_owner", "repair_fixed_backup",
                    "merge_older_ignored", "merge_newer_wins", "merge_redelivered", "read_no_repair"]
 
 
@@ -45,6 +47,38 @@ class Oracle:
 
     def live(self, c):
         return c is not None and not (c[1] != 0 and self.now // 1_000_000 >= c[1])
+
+    def getx_prev(self, key, owner, prevs, baks, cs, reply):
+        """a read while previous owners are listed: the owner and every previous owner are asked; the backup owners
+        only when that gave fewer versions than the read quorum.  Read-repair (if on) may rewrite the owner and the
+        backup owners: the copies are not compared afterwards in this case."""
+        self.pending = None
+        RQ = int(self.cfg.get("rq", 1))
+        first = [cs.get(h) for h in [(owner, "P")] + prevs if self.live(cs.get(h))]
+        bl = [cs.get((b, "B")) for b in baks if self.live(cs.get((b, "B")))]
+        lives = first + (bl if len(first) < RQ else [])
+        if not first and not bl:
+            return None if reply == "nf" else "read with no live copy returned %s" % reply[:80]
+        if len(lives) < RQ:
+            return None if reply in ("rq", "nf") else "read with %d live copies, RQ=%d returned %s" % (len(lives), RQ, reply[:80])
+        if not lives:
+            return None if reply == "nf" else "read with no live copy on the owners returned %s" % reply[:80]
+        top = max(c[2] for c in lives)
+        r = reply.split()
+        if len(r) != 3:
+            return "read with live copies %s (previous owners %s) returned %s" % (lives, [p[0] for p in prevs], reply[:80])
+        got = (r[0], int(r[1][4:]), int(r[2][3:]))
+        pl = [cs.get(h) for h in prevs]
+        if any(self.live(c) and c[2] == top for c in pl) and not (self.live(cs.get((owner, "P"))) and cs[(owner, "P")][2] == top):
+            self.hit("previous_owner_newest")
+            # ... and is an older previous owner the holder, behind one that has no copy?
+            idx = [i for i, c in enumerate(pl) if self.live(c) and c[2] == top]
+            if any(not self.live(pl[j]) for i in idx for j in range(i + 1, len(pl))):
+                self.hit("previous_owner_gap")
+        if got[2] < top and len(first) >= RQ:
+            return "read returned the copy with timestamp %d although a live copy with timestamp %d exists on the owner or a previous owner (copies %s, owners %s)" % (
+                got[2], top, sorted(cs.items()), [p[0] for p in prevs] + [owner])
+        return None
 
     def observe(self, op, reply):
         f = op.split()
@@ -97,7 +131,10 @@ class Oracle:
             prim, baks = self.route[key]
             owner = prim[-1]
             cs = self.copies.get(key, {})
+            prevs = [(m, "P") for m in prim[:-1]]
             holders = [(owner, "P")] + [(b, "B") for b in baks]
+            if prevs:
+                return self.getx_prev(key, owner, prevs, baks, cs, reply)
             lives = [cs.get(h) for h in holders if self.live(cs.get(h))]
             if any(cs.get(h) is None for h in holders):
                 self.hit("missing_copy")
@@ -203,6 +240,42 @@ class Gen:
         for _ in range(nops or 40):
             k = r.choice(keys)
             owner, baks = routes[k]
+            if r.random() < 0.12:
+                # previous owners listed for the partition (oldest first), copies planted on them - the newest one
+                # often on the OLDEST previous owner while the one after it holds none -, reads through every path
+                others = [m for m in range(n) if m != owner]
+                r.shuffle(others)
+                prev = others[:r.choice([1, 2, 2])]
+                yield "wb.owners dm %s %s" % (k, ",".join(str(m) for m in prev))
+                yield "c.own dm %s" % k
+                base = T0 + r.choice([-3, 0, 3]) * 1000
+                plan = r.choice(["oldest-newest-gap", "oldest-newest-gap", "random"])
+                for i, m in enumerate(prev):
+                    if plan == "random":
+                        if r.random() < 0.7:
+                            _, v, ttl, ts = rec(k).split(":")
+                            yield "wb.put %d P dm %s %s %s %s" % (m, k, v, ttl, ts)
+                        else:
+                            yield "wb.del %d P dm %s" % (m, k)
+                    elif i == 0:
+                        yield "wb.put %d P dm %s %s 0 %d" % (m, k, hx(b"old%d" % r.randrange(100)), base + 5000)
+                    else:
+                        yield "wb.del %d P dm %s" % (m, k)
+                if r.random() < 0.6:
+                    yield "wb.put %d P dm %s %s 0 %d" % (owner, k, hx(b"cur%d" % r.randrange(100)), base + r.choice([-1000, 1000]))
+                else:
+                    yield "wb.del %d P dm %s" % (owner, k)
+                yield "wb dm %s" % k
+                for _ in range(r.randint(1, 2)):
+                    yield "c.getx %s %d dm %s" % (r.choice(["emb", "emb", "cli", "raw"]), r.randrange(n), k)
+                    yield "wb dm %s" % k
+                # back to the stable list; the copies planted on the former owners are removed
+                for m in prev:
+                    yield "wb.del %d P dm %s" % (m, k)
+                yield "wb.owners dm %s -" % k
+                yield "c.own dm %s" % k
+                yield "wb dm %s" % k
+                continue
             holders = [(owner, "P")] + [(b, "B") for b in baks]
             x = r.random()
             if x < 0.35:
